@@ -9,6 +9,7 @@
 package transform // import "go.opentelemetry.io/otel/exporters/otlp/otlplog/otlploghttp/internal/transform"
 
 import (
+	"math"
 	"time"
 
 	cpb "go.opentelemetry.io/proto/otlp/common/v1"
@@ -97,7 +98,9 @@ func LogRecord(record log.Record) *lpb.LogRecord {
 		Body:                 LogAttrValue(record.Body()),
 		Attributes:           make([]*cpb.KeyValue, 0, record.AttributesLen()),
 		Flags:                uint32(record.TraceFlags()),
-		// TODO: DroppedAttributesCount: /* ... */,
+	}
+	if d := record.DroppedAttributes(); d > 0 {
+		r.DroppedAttributesCount = uint32(min(int64(d), math.MaxUint32)) // nolint:gosec // Bounds checked.
 	}
 	record.WalkAttributes(func(kv api.KeyValue) bool {
 		r.Attributes = append(r.Attributes, LogAttr(kv))
